@@ -88,6 +88,28 @@ func vchecksumFields(data []byte) []vsumField {
 	}
 }
 
+// where, in an undamaged stream, the Type byte of each metadata / entry block sits ("<+1> Type <+2> CheckSum")
+func vtypeFields(data []byte) []int {
+	rd := bytes.NewReader(data)
+	dec := gob.NewDecoder(rd)
+	var out []int
+	start := 0
+	for {
+		block := &DataBlock[any]{}
+		if err := dec.Decode(block); err != nil {
+			return out
+		}
+		end := len(data) - rd.Len()
+		if block.Type >= 1 && block.Type <= 4 && block.CheckSum != 0 {
+			pat := append([]byte{1, block.Type, 2}, vgobUint(block.CheckSum)...)
+			if at := bytes.Index(data[start:end], pat); at >= 0 && bytes.Count(data[start:end], pat) == 1 {
+				out = append(out, start+at+1)
+			}
+		}
+		start = end
+	}
+}
+
 func vfeedBlocks(tr *vtrace, data []byte) {
 	dec := gob.NewDecoder(bytes.NewReader(data))
 	block := &DataBlock[any]{}
@@ -303,6 +325,28 @@ func TestVerifPersist(t *testing.T) {
 			}
 			src.policyMu.Unlock()
 		}
+		// every fifth stream ends with a read-only phase: reads promote entries into the protected region and leave the
+		// demotion of its overflow to the next write - which never comes (defect F19: the overflow was lost on reload)
+		readTail := c%5 == 4
+		overProt := 0
+		if readTail {
+			var items []ReadBufItem[int, int]
+			src.RangeEntry(func(e *Entry[int, int]) {
+				items = append(items, ReadBufItem[int, int]{entry: e, hash: src.hasher.Hash(e.key)})
+			})
+			sort.Slice(items, func(i, j int) bool { return items[i].entry.key < items[j].entry.key })
+			for rep := 0; rep < 3; rep++ {
+				src.drainRead(items)
+			}
+			overProt = src.policy.slru.protected.Len() - int(src.policy.slru.protected.capacity)
+		}
+		version := uint64(r.intn(5))
+		var buf bytes.Buffer
+		if err := src.Persist(version, &buf); err != nil {
+			t.Fatal(err)
+		}
+		clean := append([]byte(nil), buf.Bytes()...)
+		// (the saved cache is described as it is after SaveCache has returned)
 		var saved []vsaved
 		for _, lr := range []struct {
 			l  *List[int, int]
@@ -325,15 +369,9 @@ func TestVerifPersist(t *testing.T) {
 					maxf = sv.freq
 				}
 			}
-			tr.comment(fmt.Sprintf("stream %d: MaxSize %d, %d entries saved, saved frequencies sum %d max %d, sketch table %d words (sample period %d), shrunk-cache %v shrunk-window %v zero-costs %v",
-				c, size, len(saved), sumf, maxf, len(src.policy.sketch.Table), src.policy.sketch.SampleSize, shrunk, shrunkWindow, zeroCosts))
+			tr.comment(fmt.Sprintf("stream %d: MaxSize %d, %d entries saved, saved frequencies sum %d max %d, sketch table %d words (sample period %d), shrunk-cache %v shrunk-window %v zero-costs %v read-tail %v (protected above its capacity by %d before the save)",
+				c, size, len(saved), sumf, maxf, len(src.policy.sketch.Table), src.policy.sketch.SampleSize, shrunk, shrunkWindow, zeroCosts, readTail, overProt))
 		}
-		version := uint64(r.intn(5))
-		var buf bytes.Buffer
-		if err := src.Persist(version, &buf); err != nil {
-			t.Fatal(err)
-		}
-		clean := append([]byte(nil), buf.Bytes()...)
 		srcWcap, srcPcap := src.policy.window.capacity, src.policy.slru.protected.capacity
 		src.Close()
 
@@ -451,6 +489,25 @@ func TestVerifPersist(t *testing.T) {
 					d[hd.sumDelta] = 3
 					d[hd.dataDelta] = 1
 					d[off] ^= 1 << uint(r.intn(7))
+					vars = append(vars, variant{"damaged", d, version, size, 0, false})
+				}
+			}
+		}
+		// ... and a block whose Type byte (outside the checksum) names no known block: every single-bit change of it that
+		// stays a one-byte value, and a few other values
+		if !light {
+			for _, at := range vtypeFields(clean) {
+				var types []byte
+				for b := uint(0); b < 7; b++ {
+					types = append(types, clean[at]^(1<<b))
+				}
+				types = append(types, 5, 9, 100, 127)
+				for _, tp := range types {
+					if !vthorough() && !r.chance(40) {
+						continue
+					}
+					d := append([]byte(nil), clean...)
+					d[at] = tp
 					vars = append(vars, variant{"damaged", d, version, size, 0, false})
 				}
 			}
